@@ -132,6 +132,9 @@ type Spec struct {
 	// runs on a goroutine of its own. Clients with Workflow == 1 run on the second prepared workflow
 	// (and wait for it).
 	SecondPrepare string
+	// Files2, when set, are the sub-workflow files given to the second preparation (same names, other
+	// contents): two preparations of one text must each keep to their own files.
+	Files2 map[string]string
 	// PrepareOnly stops after Prepare (C05 probe checks, C10, C16).
 	PrepareOnly bool
 	// AfterPrepare, if set, is called on the main client goroutine with the prepared workflow.
@@ -318,7 +321,14 @@ func Run(t *testing.T, sp Spec) (res *Result) {
 					defer close(wf2Ready)
 					simrt.EnvPoint("env:prepare2", false, 0)
 					w.Log(world.Event{Kind: world.EvClient, Data: map[string]any{"what": "prepare2-begin"}})
-					x, err := env.Prepare(sp.Text, files)
+					files2 := files
+					if sp.Files2 != nil {
+						files2 = map[string][]byte{}
+						for k, v := range sp.Files2 {
+							files2[k] = []byte(v)
+						}
+					}
+					x, err := env.Prepare(sp.Text, files2)
 					if s.Draining() {
 						return
 					}
